@@ -1181,6 +1181,13 @@ def _register_required_structure_hooks(
     def _lsp_object_hook(object_: Any, type_: type) -> Any:
         return object_
 
+    def _integer_hook(object_: Any, type_: type) -> Any:
+        # A JSON number with a fractional part is not an LSP integer; int() would
+        # silently truncate it (2147483647.5 would pass the range check as 2147483647).
+        if type_ is int and isinstance(object_, float) and not object_.is_integer():
+            raise ValueError(f"{object_} is not an integer.")
+        return type_(object_)
+
     def _parameter_information_label_hook(
         object_: Any, type: type
     ) -> Union[str, Tuple[int, int]]:
@@ -1246,6 +1253,7 @@ def _register_required_structure_hooks(
     ).notebook.type
     STRUCTURE_HOOKS = [
         (type(None), lambda object_, _type: object_),
+        (int, _integer_hook),
         (Optional[Union[int, str]], lambda object_, _type: object_),
         (Union[int, str], lambda object_, _type: object_),
         (lsp_types.LSPAny, _lsp_object_hook),
